@@ -493,7 +493,15 @@ def _deep_payload(ser, n):
     return b"\x91" * n + b"\xc0"
 
 
+# marshal data may refer back to a container that is still being built: a tuple that contains itself, a set built from an incomplete tuple
+MARSHAL_SELFREF = {"handshake": b"\xa9\x02" + b"<\x01\x00\x00\x00" + b"r\x00\x00\x00\x00" + b"N",
+                   "whole-payload": b"\xa9\x04" + b"r\x00\x00\x00\x00" + b"\xda\x04echo" + b"[\x00\x00\x00\x00" + b"{0"}
+
+
 def content_cases(ser):
+    if ser == "marshal":
+        for where in ("handshake", "whole-payload"):
+            yield {"part": "content", "ser": ser, "where": where, "family": "marshal-self-reference", "n": 0}
     for fam in ("proxy-uri", "proxy-pyroname", "proxy-ipv6", "uri-state", "float", "exception-args", "long-text"):
         for n in (24, 30, 45, 400, 20000):
             for unit in range(len(UNITS)):
@@ -533,8 +541,11 @@ def run_content_case(case, env):
     try:
         if fam == "deep":
             inner = _deep_payload(ser, case["n"])
+        if fam == "marshal-self-reference":
+            inner = MARSHAL_SELFREF[where]
+            fam_deep = True
         if where == "handshake":
-            if fam == "deep":
+            if fam in ("deep", "marshal-self-reference"):
                 data = inner if ser != "json" else inner      # the whole connect payload is the nested thing
             else:
                 data = live.raw_dumps(ser, {"handshake": content_value(case), "object": "w"})
@@ -544,7 +555,7 @@ def run_content_case(case, env):
             if not (isinstance(m, dict) and m["type"] == wire.CONNECTOK):
                 viol("content:handshake-refused", "plain handshake before the hostile request got %r" % (m,))
                 return V
-            if fam == "deep":
+            if fam in ("deep", "marshal-self-reference"):
                 data = inner
             elif where == "object-name":
                 data = live.call_payload(ser, content_value(case), "f", (1,), {})
